@@ -274,6 +274,11 @@ def iter_flow(ctx, fn, loop, events, **kw):
                 cut=set(loop["back_edges"]), cg=ctx.cg, **kw)
 
 
+def iter_flow_raw(prog, cg, fn, loop, events, **kw):
+    """iter_flow without a rule context (for the engines in analysis/misc.py)."""
+    return Flow(prog, fn, events=events, start=loop["head"], cut=set(loop["back_edges"]), cg=cg, **kw)
+
+
 def witness_path(fn, flow, node):
     """Readable guards at node (for diagnostics)."""
     g = sorted(flow.guards(node), key=lambda x: x[0])
@@ -726,6 +731,38 @@ def init_results_checked(ctx, tag):
                           "in the map (dry, service, post_action_delay) keep their defaults" % f.text(i)[:60])
     ctx.counters[tag + "_init_call_sites"] = n
     ctx.floor(tag + "_init_call_sites", 3, "call sites of BasePlugin::init/initPlugin in the library")
+    # ... and the plugin that is kept is one whose LAST init succeeded: a local plugin that goes into a container after an init on it
+    # failed (without having been re-created in between) runs with whatever the parser had filled in before it stopped
+    n_keep = 0
+    for f in sorted(P.fns.values(), key=lambda x: (x.file, x.line)):
+        if not f.file.startswith("oomd/") or not f.cfg:
+            continue
+        inits = [i for i in f.calls() if f.nodes[i].get("cname") in ("init", "initPlugin") and "recv" in f.nodes[i] and f.nodes[i].get("ccls", "").endswith("BasePlugin")]
+        vars_ = set()
+        for i in inits:
+            rr = f.root_ref(f.nodes[i]["recv"])
+            if rr is not None and rr >= 0 and f.nodes[rr]["k"] == "ref" and f.nodes[rr].get("dk") == "local":
+                vars_.add(f.nodes[rr]["name"])
+        for V in sorted(vars_):
+            keeps = [i for i in f.calls("emplace_back", "push_back", "emplace", "insert") if any(
+                f.nodes[x]["k"] == "ref" and f.nodes[x].get("name") == V for a_ in f.nodes[i].get("args", []) for x in f.walk(a_))]
+            if not keeps:
+                continue
+            FAIL = re.compile(r"^\((0 == %s->init(Plugin)?\(.*\)|%s->init(Plugin)?\(.*\) == 0)\)$" % (re.escape(V), re.escape(V)))
+            ev = {}
+            for w in local_writes(f, V, must=False):
+                ev.setdefault(w, []).append(("clear", "refused"))
+            for i in f.calls("reset"):
+                if f.text(f.nodes[i].get("recv", -1)) == V:
+                    ev.setdefault(i, []).append(("clear", "refused"))
+            fl = Flow(P, f, events=ev, cg=ctx.cg, edge_tokens=lambda k, p: ["refused"] if (isinstance(k, str) and FAIL.match(k) and p is False) else None)
+            for i in keeps:
+                n_keep += 1
+                ctx.check(not fl.may(i, "refused"), "%s:refused-plugin-is-not-kept:%s" % (tag, short(f)), "never_after (init refused)", f.loc(i),
+                          "the plugin that is kept passed its last init", "'%s' can be kept although an init() on it was refused and it was not re-created since: the parser "
+                          "stopped at the refused argument, so arguments that come later in the map (dry, post_action_delay, ...) keep their defaults" % V,
+                          witness_path(f, fl, i))
+    ctx.counters[tag + "_kept_plugin_sites"] = n_keep
 
 
 # ---------------------------------------------------------------- positional wiring of same-typed settings
@@ -1315,3 +1352,56 @@ def result_sites(fn):
                 continue
         out.append((r, leaf, None))
     return out
+
+
+def percent_threshold_exact(ctx, tag):
+    """'N%' of a total, as every plugin computes it through Util::parseSizeOrPercent, is exact: the value written to *output goes through
+    at most one truncating division, as the last step (total * pct / 100, never total / 100 * pct).  A threshold that comes out a few
+    bytes low turns 'exactly at the threshold' into 'above it'.  Shared by C08 (memory_above's percent threshold), C09 and C12."""
+    from ..misc import exactness
+    pp = ctx.fn1("Oomd::Util::parseSizeOrPercent")
+    ctx.use(pp)
+    outw = [i for i, n in enumerate(pp.nodes) if n["k"] == "bin" and n.get("op") == "=" and pp.pos_of(i) is not None and pp.text(n["l"]).replace(" ", "") in ("*output", "(*output)")]
+    ctx.counters[tag + "_percent_output_writes"] = len(outw)
+    ctx.floor(tag + "_percent_output_writes", 1, "assignments to *output in Util::parseSizeOrPercent")
+    for i in outw:
+        e = exactness(pp, pp.nodes[i]["r"])
+        ctx.check(e in ("INT", "QUOT"), "percent-threshold-exact@%d" % pp.nodes[i].get("line", 0), "E-TYPE exactness domain (INT/QUOT/INEXACT)", pp.loc(i),
+                  "the threshold in bytes is computed exactly (at most one truncating division, as the last step)",
+                  "'%s' divides before it multiplies: 'N%%' of a total that is not a multiple of the divisor comes out too low and a value exactly at the "
+                  "threshold counts as above it" % pp.text(pp.nodes[i]["r"])[:80])
+
+
+def pg_scan_sampling_tick(ctx, tag):
+    """kill_by_pg_scan needs two consecutive ticks of data: run() answers ASYNC_PAUSED exactly when it has no sample from the previous
+    tick - including the very first run, so the marker of the last sampled tick must be able to say 'never' (an optional, not a tick
+    number that happens to equal current-1 on tick 1) - and goes on to the kill cycle only with one.  Shared by C17 (what the next
+    action in the chain may conclude from CONTINUE) and C06 (ASYNC_PAUSED protocol)."""
+    P, cg = ctx.prog, ctx.cg
+    cls = P.classes.get("Oomd::KillPgScan", {})
+    fld = {x["name"]: x for x in cls.get("fields", [])}.get("last_tick_data_was_collected_")
+    if fld is None:
+        ctx.broken(tag + ":pg-scan-marker", "anchor", "-", "KillPgScan::last_tick_data_was_collected_ not found (renamed?)")
+        return
+    ctx.check("optional" in fld.get("type", ""), "kill_by_pg_scan:never-sampled-is-distinguishable", "E-TYPE (declared type)", "oomd/plugins/KillPgScan.h:%s" % fld.get("line", "?"),
+              "the last-sampled-tick marker is an optional (nullopt = never sampled)",
+              "the last-sampled-tick marker is declared as %s: 'never sampled' looks like 'sampled on tick 0', so a plugin whose first run is on tick 1 skips its "
+              "sampling tick, runs the kill cycle without pgscan rates and returns CONTINUE - the next action runs although this one then kills" % fld.get("type"))
+    runs = [f for f in P.fns.values() if f.pq == "Oomd::KillPgScan::run"]
+    ctx.counters[tag + "_pg_scan_run_instances"] = len(runs)
+    ctx.floor(tag + "_pg_scan_run_instances", 1, "KillPgScan::run instantiations")
+    for f in runs:
+        ctx.use(f)
+        fl = Flow(P, f, cg=cg)
+        X = Expander(P, f)
+        PREV = re.compile(r"^\((this->last_tick_data_was_collected_ == \(param:\w+\.getCurrentTick\(\) - 1\)|\(param:\w+\.getCurrentTick\(\) - 1\) == this->last_tick_data_was_collected_)\)$")
+        for r, leaf, c in result_sites(f):
+            g = expanded_guards(P, f, fl, leaf, X)
+            prev_t = any(isinstance(k, str) and PREV.match(k) and p is True for k, p in g)
+            prev_f = any(isinstance(k, str) and PREV.match(k) and p is False for k, p in g)
+            if c == "ASYNC_PAUSED":
+                ctx.check(prev_f, "kill_by_pg_scan:pauses-iff-no-previous-sample", "return_table", f.loc(r), "ASYNC_PAUSED exactly without a sample from the previous tick",
+                          "ASYNC_PAUSED is returned under %s" % sorted((k, p) for k, p in g if isinstance(k, str) and "Tick" in k))
+            else:
+                ctx.check(prev_t, "kill_by_pg_scan:kills-only-with-previous-sample", "return_table", f.loc(r), "the kill cycle runs only with a sample from the previous tick",
+                          "the kill cycle can run without a sample from the previous tick")
